@@ -257,7 +257,7 @@ func c05DupIsSuccess(c *Ctx) {
 func c05Rollover(c *Ctx) {
 	p := c.P
 	rule := "C05.rollover"
-	c.Doc(rule, "brokerProducer.run: buffer.add(msg) is reached only over edges on which the producer is not idempotent or buffer.producerEpoch == msg.producerEpoch, or after waitForSpace(msg, true); waitForSpace returns nil only after rollOver() unless its forceRollover parameter is false")
+	c.Doc(rule, "brokerProducer.run: buffer.add(msg) is reached only over edges on which the producer is not idempotent or buffer.producerEpoch == msg.producerEpoch, or after waitForSpace(msg, true); waitForSpace returns nil only after the buffer was replaced by a fresh one (rollOver() or the same store) unless its forceRollover parameter is false")
 	c.Floor(rule, 3)
 	fn := c.NeedFn(rule, "brokerProducer.run")
 	if fn == nil {
@@ -305,7 +305,8 @@ func c05Rollover(c *Ctx) {
 		notForced := Truth{ParamN(2), false}
 		r3.Cut = func(from, to *ssa.BasicBlock) bool { return Establishes(from, to, notForced) }
 		for _, r := range rets {
-			it, path := r3.Reach(IsItem(r), p.CallTo("brokerProducer.rollOver"))
+			rolled := p.Lifted(StoreTo(p.ResultOf(0, "newProduceSet"), "brokerProducer.buffer"))
+			it, path := r3.Reach(IsItem(r), rolled)
 			c.Check(it.IsZero(), rule, wf, "forced-rollover-honoured", r.Instr(), "waitForSpace returns nil only after rollOver(), or when the rollover was not forced",
 				"waitForSpace(msg, true) can report success without having rolled the buffer over (for instance when the buffer is empty): the caller adds the message to the buffer of the previous epoch", path)
 		}
